@@ -1,9 +1,133 @@
 import StraxModel.Driver.Parse
+import StraxModel.Model.SelectionMulti
 namespace Strax.Driver
-open Strax
+open Strax Strax.Selection
 
-/-- ops of property C10 (stub: no ops yet) -/
+/-- chunk of a stored layout: `start~stop~rows` (rows `t:e:id,…` or `-`) -/
+def c10Chunk (name kind : String) (s : String) : Option RawChunk :=
+  match s.splitOn "~" with
+  | [a, b, rows] => do
+    pure ⟨name, kind, some "0", ← a.toInt?, ← b.toInt?, ← parseRows rows, none, none, 1000⟩
+  | _ => none
+
+/-- one stored data type: `name;kind;chunk;chunk;…` (possibly no chunk at all) -/
+def c10Layout (s : String) : Option (Align.Dep × List RawChunk) :=
+  match s.splitOn ";" with
+  | name :: kind :: cs => do
+    let cs ← cs.mapM (c10Chunk name kind)
+    pure (⟨name, kind⟩, cs)
+  | _ => none
+
+/-- the loader builds every chunk with `strax.Chunk(...)`: constructor errors are errors of the load -/
+def c10Build (p : Align.Dep × List RawChunk) : Except Err (Align.Dep × List Chunk) :=
+  match p.2.mapM (·.mk') with
+  | .error e => .error e
+  | .ok cs => .ok (p.1, cs)
+
+def c10Sec (s : String) : Option Sec :=
+  match s.splitOn "/" with
+  | [a, b] => do
+    let d ← b.toNat?
+    if d = 0 then none else pure ⟨← a.toInt?, d⟩
+  | _ => none
+
+def c10Range (a b : String) : Option Range := do pure (← a.toInt?, ← b.toInt?)
+
+/-- `-` or `+`-joined parts `tr:t0:t1`, `sr:n/d:n/d`, `tw:time:endtime` -/
+def c10TimeArgs (s : String) : Option TimeArgs :=
+  (splitList s "+").foldlM (fun (acc : TimeArgs) tok =>
+    match tok.splitOn ":" with
+    | ["tr", a, b] => do pure { acc with timeRange := some (← c10Range a b) }
+    | ["sr", a, b] => do pure { acc with secondsRange := some (← c10Sec a, ← c10Sec b) }
+    | ["tw", a, b] => do pure { acc with timeWithin := some (← c10Range a b) }
+    | _ => none) {}
+
+def c10Mode (s : String) : Option Mode :=
+  if s == "fc" then some .fullyContained
+  else if s == "to" then some .touching
+  else if s == "skip" then some .skip
+  else if s == "bogus" then some .unknown
+  else none
+
+/-- atoms of the tiny selection language the harness turns into selection strings / callables -/
+def c10Atom (s : String) : Option (Row → Bool) :=
+  match s.splitOn ":" with
+  | ["ige", k] => do let k ← k.toNat?; pure fun r => decide (r.id ≥ k)
+  | ["ile", k] => do let k ← k.toNat?; pure fun r => decide (r.id ≤ k)
+  | ["imod", m, x] => do
+    let m ← m.toNat?; let x ← x.toNat?
+    if m = 0 then none else pure fun r => decide (r.id % m = x)
+  | ["tge", t] => do let t ← t.toInt?; pure fun r => decide (r.time ≥ t)
+  | ["dge", n] => do let n ← n.toInt?; pure fun r => decide (r.endt - r.time ≥ n)
+  | _ => none
+
+/-- `-` = no selection, else `&`-joined atoms -/
+def c10Pred (s : String) : Option (Option (Row → Bool)) :=
+  if s == "-" then some none
+  else do
+    let atoms ← (s.splitOn "&").mapM c10Atom
+    pure (some fun r => atoms.all fun p => p r)
+
+def c10Names (s : String) : List String := splitList s ","
+
+def showNames (l : List String) : String := if l.isEmpty then "-" else ",".intercalate l
+
+def showSelected (p : List Row × List String) : String := s!"{showIds p.1} | {showNames p.2}"
+
+def showLoaded (c : Chunk) : String := s!"{c.start}~{c.stop}~{showIds c.rows}"
+
+def c10SaveWhen (s : String) : Option SaveWhen :=
+  if s == "never" then some .never
+  else if s == "explicit" then some .explicit
+  else if s == "target" then some .target
+  else if s == "always" then some .always
+  else none
+
+def showPlan : Plan → String
+  | .load => "load"
+  | .computeSave => "save"
+  | .computeNoSave => "nosave"
+
+def c10B (b : Bool) : String := if b then "1" else "0"
+
+/-- ops of theory T10 (time-range / row / column selection of stored data). -/
 def handleC10 : List String → Option String
+  | ["c10.load", layout, t0, t1] => do
+    let l ← c10Layout layout
+    let r : Option Range ← if t0 == "-" then pure none else do pure (some (← c10Range t0 t1))
+    pure <| showExcept (fun cs => if cs.isEmpty then "-" else " ".intercalate (cs.map showLoaded))
+      (c10Build l >>= fun (_, cs) => loader cs r)
+  | ["c10.sel", mode, t0, t1, pred, fields, keep, drop, rows] => do
+    let m ← c10Mode mode; let p ← c10Pred pred; let rows ← parseRows rows
+    let r : Option Range ← if t0 == "-" then pure none else do pure (some (← c10Range t0 t1))
+    pure <| showExcept showSelected
+      (applySelection (c10Names fields) ⟨m, p, c10Names keep, c10Names drop⟩ r rows)
+  | ["c10.abs", layout, targs] => do
+    let l ← c10Layout layout; let a ← c10TimeArgs targs
+    pure <| showExcept (fun r => match r with
+        | none => "none"
+        | some (a, b) => s!"{a} {b}")
+      (c10Build l >>= fun (_, cs) => toAbsolute cs a)
+  | ["c10.get", fields, targs, mode, pred, keep, drop, layout] => do
+    let a ← c10TimeArgs targs; let m ← c10Mode mode; let p ← c10Pred pred; let l ← c10Layout layout
+    pure <| showExcept showSelected
+      (c10Build l >>= fun (_, cs) => getArray (c10Names fields) cs a ⟨m, p, c10Names keep, c10Names drop⟩)
+  | "c10.multi" :: fields :: targs :: mode :: pred :: keep :: drop :: layouts => do
+    let a ← c10TimeArgs targs; let m ← c10Mode mode; let p ← c10Pred pred
+    let ls ← layouts.mapM c10Layout
+    pure <| showExcept showSelected
+      (ls.mapM c10Build >>= fun ts => getArrayMulti (c10Names fields) ts a ⟨m, p, c10Names keep, c10Names drop⟩)
+  | ["c10.epi", seen, hasRange] => do
+    let s ← parseBool seen; let h ← parseBool hasRange
+    pure <| showExcept (fun _ => "-") (epilogue s (if h then some (0, 0) else none))
+  | ["c10.plan", stored, sw, isTarget, inSave, hasRange, hasSel, hasCols] => do
+    let st ← parseBool stored; let sw ← c10SaveWhen sw; let it ← parseBool isTarget
+    let is ← parseBool inSave; let hr ← parseBool hasRange; let hs ← parseBool hasSel
+    let hc ← parseBool hasCols
+    pure <| showExcept showPlan (savePlan st sw it is hr hs hc)
+  | ["c10.hyp", layout] => do
+    let l ← c10Layout layout
+    pure <| showExcept (fun (_, cs) => s!"law={c10B (lawAbidingB cs)}") (c10Build l)
   | _ => none
 
 end Strax.Driver
